@@ -3,7 +3,7 @@
    statements of the array / list / compound cases, the element kinds of the typed arrays, and the readers
    readInt8/16/32/64, readString, readTag, rawRead, enter translated statement by statement. *)
 From Coq Require Import List String Arith NArith ZArith Lia Bool ZifyN ZifyNat ZifyBool.
-From GoMC Require Import Base.Bits Base.Bytes Base.Dec Gen.Consts Model.C01 Model.C03 Model.C03_syntax Gen.C03gen
+From GoMC Require Import Base.Bits Base.Bytes Base.Dec Gen.Consts Model.C01 Model.C03 Model.C03_syntax Model.C03_indirect Gen.C03gen
   Proofs.C01 Proofs.C01_dec Proofs.C01_more.
 Import ListNotations.
 Open Scope N_scope.
@@ -206,4 +206,88 @@ Proof. intros f dep t cur H. destruct t; try reflexivity. exfalso. now apply (H 
 Theorem dst_array_tie : forall f dep n t cur,
   dst (S f) dep (SArr n t) cur idList =
   gen_st_array f dep t (match cur with YArr l => l | _ => repeat (zero_ty t) (N.to_nat n) end).
+Proof. reflexivity. Qed.
+
+
+(* ---------- phase 5 ---------- *)
+(* the binary -> SNBT converter walk, generated like rawRead *)
+Theorem encode_tie : gen_text = dtext.
+Proof. reflexivity. Qed.
+
+(* TagByteArray / TagIntArray / TagLongArray into an array destination *)
+Theorem dst_array_cases_tie : forall f dep n t cur,
+  let c := match cur with YArr l => l | _ => repeat (zero_ty t) (N.to_nat n) end in
+  dst (S f) dep (SArr n t) cur idByteArray = gen_st_array_bytes f dep t c /\
+  dst (S f) dep (SArr n t) cur idIntArray = gen_st_array_int f dep t c /\
+  dst (S f) dep (SArr n t) cur idLongArray = gen_st_array_long f dep t c.
+Proof. intros. repeat split; reflexivity. Qed.
+
+(* indirect(): the model routes a destination exactly as one pass over the translated statements of its loop does
+   (pointer allocated when nil and followed, *RawMessage found as an Unmarshaler - the Unmarshaler assertion is
+   tried first -, an interface{} holding a value replaced by a new zero value of its Go type, TagEnd stops at a
+   settable pointer) *)
+Definition route (f : nat) (dep : N) (ty : sty) (cur : sval) (id : N) (o : iout) : dec sval :=
+  match o with
+  | OStopNull => Fail eEND
+  | OUnm => match ty with
+            | SPtr _ => r <- dec_raw (S f) id ;; Ret (YPtr (Some (YRaw (fst r) (snd r))))
+            | _ => r <- dec_raw (S f) id ;; Ret (YRaw (fst r) (snd r))
+            end
+  | OText => Fail eType
+  | OAnyInto old => a <- dec_any_into (S f) dep old id ;; Ret (YAny (Some a))
+  | ODescend t c => v <- dst f dep t c id ;; Ret (YPtr (Some v))
+  | OValue => match ty with
+              | SRaw | SPtr _ => Fail eType       (* never: RawMessage is found as an Unmarshaler, a pointer is followed *)
+              | _ => dst (S f) dep ty cur id      (* not a pointer: the kind switch of unmarshal (generated pieces above) *)
+              end
+  end.
+Theorem indirect_route_ok : forall f dep ty cur id,
+  dst (S f) dep ty cur id = route f dep ty cur id (run_isteps indirect_steps ty cur (id =? idEnd)).
+Proof.
+  intros f dep ty cur id. destruct ty as [t| | | |t|t|n t|fs]; try reflexivity.
+  - destruct cur as [| [old|] | | | | | |]; reflexivity.
+  - cbn [dst]. destruct (id =? idEnd); [reflexivity|]. destruct t; destruct cur as [| | | |[c|]| | |]; reflexivity.
+Qed.
+Theorem indirect_method_order : In (IkMethods [MUnmarshaler; MTextUnmarshaler]) indirect_steps.
+Proof. cbn. tauto. Qed.
+
+(* ---------- allocation: the translated growth rules never allocate for a declared count the stream does not back ---------- *)
+(* the only transitions of makeSlice / growSlice (and readBytes) in the decoder: allocate `first n`; read one element
+   while fewer than the allocated ones are read; grow - only when ALL allocated elements have been read and fewer
+   than n are allocated (`if i == buf.Len() { buf = growSlice(buf, n) }`, `if read = len(buf); read == n {return}`) *)
+Inductive areach (first : Z -> Z) (grow : Z -> Z -> Z) (n : Z) : Z -> Z -> Prop :=
+| ar_init : areach first grow n (first n) 0
+| ar_read a r : areach first grow n a r -> (r < a)%Z -> areach first grow n a (r + 1)
+| ar_grow a r : areach first grow n a r -> r = a -> (a < n)%Z -> areach first grow n (grow a n) r.
+
+Definition alloc_inv (n a r : Z) : Prop :=
+  (0 <= r <= a)%Z /\ (a <= n)%Z /\ (a <= nbt_maxPrealloc \/ a <= 2 * r)%Z.
+
+Theorem alloc_bounded_slices : forall n a r, (0 <= n)%Z ->
+  areach gen_makeSlice_len gen_growSlice_len n a r -> alloc_inv n a r.
+Proof.
+  intros n a r Hn H. unfold alloc_inv. change nbt_maxPrealloc with 65536%Z.
+  induction H as [|a r H IH Hr|a r H IH -> Ha].
+  - unfold gen_makeSlice_len. change nbt_maxPrealloc with 65536%Z. lia.
+  - lia.
+  - unfold gen_growSlice_len. lia.
+Qed.
+Theorem alloc_bounded_bytes : forall n a r, (0 <= n)%Z ->
+  areach gen_readBytes_first gen_readBytes_grow n a r -> alloc_inv n a r.
+Proof.
+  intros n a r Hn H. unfold alloc_inv. change nbt_maxPrealloc with 65536%Z.
+  induction H as [|a r H IH Hr|a r H IH -> Ha].
+  - unfold gen_readBytes_first. change nbt_maxPrealloc with 65536%Z. lia.
+  - lia.
+  - unfold gen_readBytes_grow. lia.
+Qed.
+(* dynbt appendN: a step never exceeds what is still declared, nor the larger of 64 KiB and what the buffer holds
+   (all of which has been read: the next step is taken only after io.ReadFull filled the previous one) *)
+Theorem alloc_bounded_appendN : forall start n, (0 <= start)%Z -> (0 < n)%Z ->
+  (0 < gen_appendN_step start n <= n)%Z /\ (gen_appendN_step start n <= Z.max start 65536)%Z.
+Proof. intros. unfold gen_appendN_step. lia. Qed.
+
+(* the nil map[string]any destination (dmap): every tag but TagCompound ends in the error of its kind test after the
+   reads that precede it; TagCompound builds the map like the interface{} destination *)
+Theorem unmarshal_map_tie : gen_map = dmap.
 Proof. reflexivity. Qed.
